@@ -98,6 +98,22 @@ def build_lead_in_match(rng, double):
     return c, opts, kind + ":lead-in-match", True
 
 
+def build_unordered_pairs(rng, double):
+    """always present: two matching pairs listed with their heads in DESCENDING fibre order (pairs are matched as listed)"""
+    a0 = rng.randint(2, 4)
+    w = rng.randint(1, 2)
+    nx = a0 + rng.randint(24, 30)
+    ref_blocks = [(a0, a0 + 3, 0), (a0 + 6, a0 + 9, 1)]
+    t1, t2 = a0 + 13, a0 + 18
+    match_blocks = [((a0 + 6, a0 + 6 + w), (t1, t1 + w)), ((a0 + 1, a0 + 1 + w), (t2, t2 + w))]
+    if rng.random() < 0.5:
+        match_blocks = [(match_blocks[0][0], (t2, t2 + w)), (match_blocks[1][0], (t1, t1 + w))]
+    layout = dict(ref_blocks=ref_blocks, match_blocks=match_blocks, trans_idx=[])
+    c = fibre.make_case(rng, double=double, nx=nx, nt=rng.randint(1, 4), span=rng.choice([20.0, 100.0, 500.0]), noise=0.0,
+                        var_kind=rng.choice(["float", "array", "callable"]), layout=layout, irregular=rng.random() < 0.3)
+    return c, {}, "free:unordered-pairs", True
+
+
 def run_one(ctx, c, opts, kind, front):
     desc = calib.case_desc(c, opts)
     out, _ = calib.run_real(c, **opts)
@@ -143,6 +159,7 @@ def batch(ctx, n):
     done = tries = 0
     for double in (True, False):
         run_one(ctx, *build_lead_in_match(ctx.rng, double))
+        run_one(ctx, *build_unordered_pairs(ctx.rng, double))
     while done < n and tries < 20 * n:
         tries += 1
         b = build(ctx.rng, ctx.quick)
